@@ -862,6 +862,16 @@ impl VisitMut for Norm {
                 }
                 self.n9c(f);
                 {
+                    // N8f (general form): consuming iteration over a map named by its token text (option into_vec=EXPR)
+                    let t: String = f.expr.to_token_stream().to_string().chars().filter(|c| !c.is_whitespace()).collect();
+                    if !matches!(&*f.expr, Expr::Path(_)) && self.into_vec.iter().any(|x| *x == t) {
+                        let sp = f.for_token.span;
+                        let inner = f.expr.clone();
+                        *f.expr = parse_quote!(hq_map_into_vec(#inner));
+                        self.log("N8f-consume-map-via-vec", sp);
+                    }
+                }
+                {
                     // N9b (general form): `for P in EXPR` with EXPR: &Collection named by its token text => `for P in EXPR.iter()`
                     let t: String = f.expr.to_token_stream().to_string().chars().filter(|c| !c.is_whitespace()).collect();
                     if !matches!(&*f.expr, Expr::Path(_)) && self.iter_on.iter().any(|x| *x == t) {
